@@ -101,98 +101,101 @@ def run(chk):
         sg = "-" if "neg" in y.roles else "+"
         return (sg + "0") if op == "op1" else ("0" + sg)
 
-    # ---------------- mul_add
+    from sa import pat
+    from .common import ev_small, executed, Unevaluable, as_update
+
+    def double_call(stmt):
+        return isinstance(stmt, ast.Assign) and isinstance(stmt.value, ast.Call) and id(stmt.value) in calls_by_node and calls_by_node[id(stmt.value)][2] == "_double"
+
+    def digit_case(q, loop, env):
+        """the accumulating statements executed for one concrete digit assignment"""
+        try:
+            ex, how = executed(loop.body, dict(env))
+        except Unevaluable as e:
+            raise AnalysisError("%s: the digit dispatch tests something other than the digits (%s)" % (q, e))
+        return ex
+
+    SG = {-1: "-", 0: "0", 1: "+"}
+    # ---------------- mul_add : 9 digit pairs, evaluated on the dispatch of the loop body
     f = p.func("ellipticcurve:PointJacobi.mul_add")
     loops = [n for n in ast.walk(f.node) if isinstance(n, ast.For) and isinstance(n.target, ast.Tuple) and len(n.target.elts) == 2]
     if len(loops) != 1:
         raise AnalysisError("mul_add: digit loop not found")
     loop = loops[0]
     A, B = loop.target.elts[0].id, loop.target.elts[1].id
-    table = {}
-    chainA = [s for s in loop.body if isinstance(s, ast.If)]
-    if len(chainA) != 1 or if_chain(chainA[0], A) is None:
-        raise AnalysisError("mul_add: the digit dispatch is not an if-chain on the first digit")
-    for sa_, bodyA in if_chain(chainA[0], A):
-        inner = [s for s in bodyA if isinstance(s, ast.If)]
-        if len(inner) != 1 or if_chain(inner[0], B) is None:
-            raise AnalysisError("mul_add: inner dispatch on the second digit not recognised")
-        for sb_, bodyB in if_chain(inner[0], B):
-            adds = [add_call(s) for s in bodyB if add_call(s)]
-            table[(sa_, sb_)] = (adds, bodyB)
-    chk.floor("R07.1", "(sign A, sign B) cases of mul_add", len(table), 9)
-    for (sa_, sb_), (adds, body) in sorted(table.items()):
-        if sa_ == "0" and sb_ == "0":
-            ok = not adds
-            chk.ob("R07.1", "mul_add: digits (0, 0) add nothing", ok, loc=L(loop), key="C07|R07.1|mul_add|00", detail="an addition happens for the digit pair (0, 0)")
-            continue
-        want = sa_ + sb_
-        ok = len(adds) == 1
-        got = None
-        if ok:
-            got = operand_of(adds[0][3])
-            ok = got == want
-        chk.ob("R07.1", "mul_add: digits (%s, %s) accumulate %sP %sQ" % (sa_, sb_, sa_, sb_), ok, loc=L(body[0]), key="C07|R07.1|mul_add|%s%s" % (sa_, sb_),
-               detail="for digits (A %s 0, B %s 0) the accumulated operand is %r, expected %r" % (sa_, sb_, got, want))
-    # ---------------- __mul__
+    ncase = 0
+    for a_ in (-1, 0, 1):
+        for b_ in (-1, 0, 1):
+            ex = digit_case("mul_add", loop, {A: a_, B: b_})
+            ncase += 1
+            adds = [add_call(s_) for s_ in ex if add_call(s_)]
+            dbl = [i for i, s_ in enumerate(ex) if double_call(s_)]
+            first_add = min([i for i, s_ in enumerate(ex) if add_call(s_)] or [10 ** 6])
+            okd = len(dbl) == 1 and dbl[0] < first_add
+            chk.ob("R07.2", "mul_add: digits (%s, %s): exactly one doubling, before any addition" % (SG[a_], SG[b_]), okd, loc=L(loop), key="C07|R07.2|mul_add|%s%s" % (SG[a_], SG[b_]),
+                   detail="mul_add: for digits (%d, %d) the statements executed are %s" % (a_, b_, [norm_text(x)[:50] for x in ex]))
+            if a_ == 0 and b_ == 0:
+                chk.ob("R07.1", "mul_add: digits (0, 0) add nothing", not adds, loc=L(loop), key="C07|R07.1|mul_add|00", detail="an addition happens for the digit pair (0, 0)")
+                continue
+            want = SG[a_] + SG[b_]
+            got = operand_of(adds[0][3]) if len(adds) == 1 else None
+            chk.ob("R07.1", "mul_add: digits (%s, %s) accumulate %sP %sQ" % (SG[a_], SG[b_], SG[a_], SG[b_]), got == want, loc=L(loop), key="C07|R07.1|mul_add|%s" % want,
+                   detail="for digits (A %s 0, B %s 0) the accumulated operand is %r (%d addition(s)), expected %r" % (SG[a_], SG[b_], got, len(adds), want))
+    chk.floor("R07.1", "(sign A, sign B) cases of mul_add", ncase, 9)
+    # ---------------- __mul__ : 3 digits
     f = p.func("ellipticcurve:PointJacobi.__mul__")
     loops = [n for n in ast.walk(f.node) if isinstance(n, ast.For)]
     if len(loops) != 1 or not isinstance(loops[0].target, ast.Name):
         raise AnalysisError("__mul__: digit loop not found")
     loop = loops[0]
-    ch = [s for s in loop.body if isinstance(s, ast.If)]
-    chain = if_chain(ch[0], loop.target.id) if len(ch) == 1 else None
-    if not chain:
-        raise AnalysisError("__mul__: digit dispatch not recognised")
-    for sg, body in chain:
-        adds = [add_call(s) for s in body if add_call(s)]
-        if sg == "0":
+    for d_ in (-1, 0, 1):
+        ex = digit_case("__mul__", loop, {loop.target.id: d_})
+        adds = [add_call(s_) for s_ in ex if add_call(s_)]
+        dbl = [i for i, s_ in enumerate(ex) if double_call(s_)]
+        first_add = min([i for i, s_ in enumerate(ex) if add_call(s_)] or [10 ** 6])
+        chk.ob("R07.2", "__mul__: digit %s: exactly one doubling, before any addition" % SG[d_], len(dbl) == 1 and dbl[0] < first_add, loc=L(loop), key="C07|R07.2|__mul__|%s" % SG[d_],
+               detail="__mul__: for digit %d the statements executed are %s" % (d_, [norm_text(x)[:50] for x in ex]))
+        if d_ == 0:
+            chk.ob("R07.1", "__mul__: digit 0 adds nothing", not adds, loc=L(loop), key="C07|R07.1|mul|0", detail="an addition happens for a zero digit")
             continue
         got = operand_of(adds[0][3]) if len(adds) == 1 else None
-        chk.ob("R07.1", "__mul__: digit %s 0 adds %sP" % (sg, sg), got == sg + "0", loc=L(body[0]), key="C07|R07.1|mul|%s" % sg, detail="for a digit %s 0 the added operand is %r" % (sg, got))
-    signs = {sg for sg, _b in chain}
-    chk.ob("R07.1", "__mul__: both non-zero digit signs handled", {"-", "+"} <= signs, loc=L(loop), key="C07|R07.1|mul|signs", detail="digit signs handled: %s" % sorted(signs))
-    # ---------------- _mul_precompute
+        chk.ob("R07.1", "__mul__: digit %s 0 adds %sP" % (SG[d_], SG[d_]), got == SG[d_] + "0", loc=L(loop), key="C07|R07.1|mul|%s" % SG[d_], detail="for a digit %s 0 the added operand is %r (%d addition(s))" % (SG[d_], got, len(adds)))
+    # ---------------- _mul_precompute : residues of the scalar modulo 4
     f = p.func("ellipticcurve:PointJacobi._mul_precompute")
     sc = f.params[1]
-    okp = False
-    why = "pattern not found"
-    for n in ast.walk(f.node):
-        if isinstance(n, ast.If) and norm_text(n.test) in ("%s %% 4 >= 2" % sc, "%s %% 4 > 1" % sc, "%s %% 4 == 3" % sc):
-            def upd(body):
-                for s in body:
-                    if isinstance(s, ast.Assign) and isinstance(s.targets[0], ast.Name) and s.targets[0].id == sc:
-                        return norm_text(s.value)
-                    if isinstance(s, ast.AugAssign):
-                        return norm_text(s)
-            up_t, up_f = upd(n.body), upd(n.orelse)
-            a_t = [add_call(s) for s in n.body if add_call(s)]
-            a_f = [add_call(s) for s in n.orelse if add_call(s)]
-            if len(a_t) == 1 and len(a_f) == 1:
-                neg_t = "neg" in a_t[0][3][4].roles
-                neg_f = "neg" in a_f[0][3][4].roles
-                okp = up_t in ("(%s + 1) // 2" % sc, "(%s + 1) >> 1" % sc) and up_f in ("(%s - 1) // 2" % sc, "(%s - 1) >> 1" % sc, "%s // 2" % sc) and neg_t and not neg_f
-                why = "true branch: %s / negated=%s ; false branch: %s / negated=%s" % (up_t, neg_t, up_f, neg_f)
-    chk.ob("R07.1", "_mul_precompute: k = 3 mod 4 -> add -entry, k <- (k+1)/2 ; k = 1 mod 4 -> add +entry, k <- (k-1)/2", okp, loc="ellipticcurve:PointJacobi._mul_precompute", key="C07|R07.1|precompute", detail=why)
+    loops = [n for n in ast.walk(f.node) if isinstance(n, ast.For)]
+    if len(loops) != 1:
+        raise AnalysisError("_mul_precompute: table loop not found")
+    loop = loops[0]
+    okp = True
+    why = []
+    for k_ in (0, 1, 2, 3, 4, 5, 6, 7, 9, 11, 102, 103, 2 ** 40 + 1, 2 ** 40 + 3):
+        env = {sc: k_}
+        try:
+            ex, how = executed(loop.body, env)
+        except Unevaluable as e:
+            raise AnalysisError("_mul_precompute: the dispatch tests something other than the scalar (%s)" % e)
+        adds = [add_call(s_) for s_ in ex if add_call(s_)]
+        newk = env.get(sc)
+        if k_ % 2 == 0:
+            good = not adds and newk == k_ // 2
+        elif k_ % 4 == 1:
+            good = len(adds) == 1 and "neg" not in adds[0][3][4].roles and newk == (k_ - 1) // 2
+        else:
+            good = len(adds) == 1 and "neg" in adds[0][3][4].roles and newk == (k_ + 1) // 2
+        if not good:
+            okp = False
+            why.append("k = %d: %d addition(s)%s, k <- %s" % (k_, len(adds), " of the negated entry" if adds and "neg" in adds[0][3][4].roles else "", newk))
+    chk.ob("R07.1", "_mul_precompute: k even -> k/2, no addition; k = 1 mod 4 -> add +entry, k <- (k-1)/2; k = 3 mod 4 -> add -entry, k <- (k+1)/2 (14 scalars through the dispatch)", okp,
+           loc="ellipticcurve:PointJacobi._mul_precompute", key="C07|R07.1|precompute", detail="; ".join(why[:4]))
 
     # ---------------- R07.2
-    for q in ("__mul__", "mul_add"):
-        f = p.func("ellipticcurve:PointJacobi." + q)
-        loop = [n for n in ast.walk(f.node) if isinstance(n, ast.For)][-1]
-        first = loop.body[0]
-        c = calls_by_node.get(id(first.value)) if isinstance(first, ast.Assign) and isinstance(first.value, ast.Call) else None
-        dbl = bool(c) and c[2] == "_double"
-        n_dbl = sum(1 for n in ast.walk(loop) if isinstance(n, ast.Call) and id(n) in calls_by_node and calls_by_node[id(n)][2] == "_double")
-        top_adds = [s for s in loop.body if add_call(s)]
-        chk.ob("R07.2", "%s: each digit starts with exactly one doubling; additions only inside the digit branches" % q, dbl and n_dbl == 1 and not top_adds, loc=L(loop), key="C07|R07.2|%s" % q,
-               detail="%s: doubling first=%s, doublings in loop=%d, unconditional adds=%d" % (q, dbl, n_dbl, len(top_adds)))
     # accumulators start at the identity encoding (0, 0, 1) and every digit of the recoding is consumed
     for q in ("__mul__", "mul_add", "_mul_precompute"):
         f = p.func("ellipticcurve:PointJacobi." + q)
         loop = [n for n in ast.walk(f.node) if isinstance(n, ast.For)][-1]
-        first = loop.body[0] if q != "_mul_precompute" else None
         acc = None
         for s_ in loop.body:
-            c_ = add_call(s_) if isinstance(s_, ast.Assign) else None
             for n_ in ast.walk(s_):
                 if isinstance(n_, ast.Assign) and isinstance(n_.targets[0], ast.Tuple) and isinstance(n_.value, ast.Call) and id(n_.value) in calls_by_node and calls_by_node[id(n_.value)][2] in ("_add", "_double"):
                     acc = [t.id for t in n_.targets[0].elts if isinstance(t, ast.Name)]
@@ -204,37 +207,59 @@ def run(chk):
                     if names_[:3] == acc[:3]:
                         inits.append([getattr(v, "value", None) for v in n_.value.elts[:3]])
         chk.ob("R07.2", "%s: the accumulator starts as the identity (0, 0, 1)" % q, inits == [[0, 0, 1]], loc=L(loop), key="C07|R07.2|init|%s" % q, detail="%s initialises its accumulator with %s" % (q, inits))
+    NAF = ["reversed(self._naf(X_k))", "list(reversed(self._naf(X_k)))", "self._naf(X_k)[::-1]", "list(self._naf(X_k)[::-1])"]
     f = p.func("ellipticcurve:PointJacobi.__mul__")
     loop = [n for n in ast.walk(f.node) if isinstance(n, ast.For)][-1]
-    okit = norm_text(loop.iter) == "reversed(self._naf(%s))" % f.params[1]
+    bm = pat.any_of(loop.iter, NAF, defs=pat.defs_of(f.node))
+    okit = bm is not None and norm_text(bm["X_k"]) in (f.params[1], "int(%s)" % f.params[1])
     chk.ob("R07.2", "__mul__ iterates over every digit of reversed(self._naf(k))", okit, loc=L(loop), key="C07|R07.2|digits|__mul__", detail="__mul__ iterates over `%s` (a digit of the recoding may be skipped)" % norm_text(loop.iter))
     f = p.func("ellipticcurve:PointJacobi.mul_add")
     loop = [n for n in ast.walk(f.node) if isinstance(n, ast.For)][-1]
-    nafs = {norm_text(n_.targets[0]): norm_text(n_.value) for n_ in ast.walk(f.node) if isinstance(n_, ast.Assign) and isinstance(n_.value, ast.Call) and "_naf(" in norm_text(n_.value) and isinstance(n_.targets[0], ast.Name)}
-    okit = isinstance(loop.iter, ast.Call) and norm_text(loop.iter.func) == "zip" and [norm_text(a_) for a_ in loop.iter.args] == list(nafs) and \
-        sorted(nafs.values()) == sorted(["list(reversed(self._naf(int(%s))))" % f.params[1], "list(reversed(self._naf(int(%s))))" % f.params[3]])
-    chk.ob("R07.2", "mul_add iterates over zip of the two complete reversed NAF lists", okit, loc=L(loop), key="C07|R07.2|digits|mul_add", detail="mul_add iterates over `%s` with lists %s" % (norm_text(loop.iter), nafs))
+    okit = isinstance(loop.iter, ast.Call) and norm_text(loop.iter.func) == "zip" and len(loop.iter.args) == 2 and all(isinstance(a_, ast.Name) for a_ in loop.iter.args)
+    lists = [a_.id for a_ in loop.iter.args] if okit else []
+    srcs = {}
+    pads = {}
+    for n_ in ast.walk(f.node):
+        if isinstance(n_, ast.Assign) and len(n_.targets) == 1 and isinstance(n_.targets[0], ast.Name) and n_.targets[0].id in lists and n_.lineno < loop.lineno:
+            bm = pat.any_of(n_.value, NAF)
+            if bm is not None:
+                srcs.setdefault(n_.targets[0].id, []).append(norm_text(bm["X_k"]))
+            else:
+                pads.setdefault(n_.targets[0].id, []).append(n_)
+    okit = okit and [srcs.get(x) for x in lists] == [["int(%s)" % f.params[1]], ["int(%s)" % f.params[3]]] or [srcs.get(x) for x in lists] == [[f.params[1]], [f.params[3]]]
+    chk.ob("R07.2", "mul_add iterates over zip of the two complete reversed NAF lists (first digit list from self_mul, second from other_mul)", bool(okit), loc=L(loop), key="C07|R07.2|digits|mul_add",
+           detail="mul_add iterates over `%s` with lists built from %s" % (norm_text(loop.iter), srcs))
+    # padding: evaluated on short symbolic lists - afterwards both lists have the longer length, each is
+    # its original digits preceded by zeros only
+    pad = bool(okit)
+    if pad:
+        first_naf = min(n_.lineno for n_ in ast.walk(f.node) if isinstance(n_, ast.Assign) and isinstance(n_.targets[0], ast.Name) and n_.targets[0].id in lists)
+        region = [s_ for s_ in f.node.body if first_naf < s_.lineno < loop.lineno and not (isinstance(s_, ast.Assign) and pat.any_of(s_.value, NAF) is not None)]
+        for la, lb in ((1, 3), (3, 1), (2, 2), (0, 2), (2, 0)):
+            env = {lists[0]: ["a%d" % i for i in range(la)], lists[1]: ["b%d" % i for i in range(lb)]}
+            try:
+                ex, how = executed(region, env)
+            except Unevaluable as e:
+                pad = False
+                break
+            m_ = max(la, lb)
+            ra, rb = env.get(lists[0]), env.get(lists[1])
+            pad &= ra == [0] * (m_ - la) + ["a%d" % i for i in range(la)] and rb == [0] * (m_ - lb) + ["b%d" % i for i in range(lb)]
+    chk.ob("R07.2", "mul_add: the shorter NAF list is left-padded with zeros to the length of the longer (5 length pairs through the padding code)", pad, loc="ellipticcurve:PointJacobi.mul_add", key="C07|R07.2|pad",
+           detail="NAF lists are not padded to equal length before zip()")
     # table entries are affine coordinates (they are added with Z = 1)
     f = p.func("ellipticcurve:PointJacobi._maybe_precompute")
-    apps = [n_ for n_ in ast.walk(f.node) if isinstance(n_, ast.Call) and isinstance(n_.func, ast.Attribute) and n_.func.attr == "append"]
-    okaff = bool(apps)
-    for a_ in apps:
-        e = a_.args[0] if a_.args else None
+    ents = [n_.args[0] for n_ in ast.walk(f.node) if isinstance(n_, ast.Call) and isinstance(n_.func, ast.Attribute) and n_.func.attr == "append" and n_.args]
+    ents += [e_ for n_ in ast.walk(f.node) if isinstance(n_, ast.Assign) and isinstance(n_.value, ast.List) for e_ in n_.value.elts]
+    okaff = bool(ents)
+    for e in ents:
         okaff &= isinstance(e, ast.Tuple) and len(e.elts) == 2 and all(isinstance(x, ast.Call) and isinstance(x.func, ast.Attribute) and not x.args for x in e.elts) and \
             [x.func.attr for x in e.elts] == ["x", "y"] and norm_text(e.elts[0].func.value) == norm_text(e.elts[1].func.value)
-    chk.ob("R07.2", "every table entry is (P.x(), P.y()) of one point: affine coordinates, as _mul_precompute adds them with Z = 1 [%d append(s)]" % len(apps), okaff, loc=f.qname, key="C07|R07.2|table-affine",
+    chk.ob("R07.2", "every table entry is (P.x(), P.y()) of one point: affine coordinates, as _mul_precompute adds them with Z = 1 [%d entry expression(s)]" % len(ents), okaff, loc=f.qname, key="C07|R07.2|table-affine",
            detail="a table entry is not the affine (x(), y()) pair of a point")
     tbl_adds = [c for c in M.call_args if c[0].node.name == "_mul_precompute" and c[2] == "_add"]
     okz1 = bool(tbl_adds) and all(len(c[3]) >= 6 and c[3][5].const == 1 for c in tbl_adds)
     chk.ob("R07.2", "_mul_precompute adds table entries with Z = 1", okz1, loc="ellipticcurve:PointJacobi._mul_precompute", key="C07|R07.2|table-z1", detail="table entries are not added with the literal Z = 1")
-    f = p.func("ellipticcurve:PointJacobi.mul_add")
-    pad = False
-    for n in ast.walk(f.node):
-        if isinstance(n, ast.If) and isinstance(n.test, ast.Compare) and "len(" in norm_text(n.test) and len(n.orelse) == 1 and isinstance(n.orelse[0], ast.If):
-            t1, t2 = norm_text(n.test), norm_text(n.orelse[0].test)
-            b1, b2 = norm_text(n.body[0]), norm_text(n.orelse[0].body[0])
-            pad = ("<" in t1 and ">" in t2 or ">" in t1 and "<" in t2) and "[0] *" in b1 and "[0] *" in b2
-    chk.ob("R07.2", "mul_add: the shorter NAF list is left-padded with zeros to the length of the longer", pad, loc="ellipticcurve:PointJacobi.mul_add", key="C07|R07.2|pad", detail="NAF lists are not padded to equal length before zip()")
 
     # ---------------- R07.3
     f = p.func("ellipticcurve:PointJacobi.mul_add")
@@ -267,24 +292,26 @@ def run(chk):
                 parents[id(c)] = n
         ok = True
         cnt = 0
+        from sa import pat
+        D4 = pat.defs_of(f.node)
         for n in ast.walk(f.node):
+            red = None
             if isinstance(n, ast.BinOp) and isinstance(n.op, ast.Mod) and isinstance(n.left, ast.Name) and n.left.id in scal:
-                cnt += 1
-                names = {x.attr for x in ast.walk(n.right) if isinstance(x, ast.Attribute)} | {x.id for x in ast.walk(n.right) if isinstance(x, ast.Name)}
-                r_ = n.right
-
-                def is_order(x):
-                    return isinstance(x, ast.Attribute) and x.attr == "__order" and isinstance(x.value, ast.Name) and x.value.id == "self"
-                good = is_order(r_) or (isinstance(r_, ast.BinOp) and isinstance(r_.op, (ast.Mult, ast.LShift)) and (
-                    (is_order(r_.left) and isinstance(r_.right, ast.Constant) and isinstance(r_.right.value, int) and r_.right.value >= 1) or
-                    (is_order(r_.right) and isinstance(r_.left, ast.Constant) and isinstance(r_.left.value, int) and r_.left.value >= 1 and isinstance(r_.op, ast.Mult))))
-                g = parents.get(id(n))
-                guarded = False
-                while g is not None:
-                    if isinstance(g, ast.If) and norm_text(g.test) == "self.__order":
-                        guarded = True
-                    g = parents.get(id(g))
-                ok &= good and guarded
+                red = n.right
+            elif isinstance(n, ast.AugAssign) and isinstance(n.op, ast.Mod) and isinstance(n.target, ast.Name) and n.target.id in scal:
+                red = n.value
+            if red is None:
+                continue
+            cnt += 1
+            bm = pat.any_of(red, ["self.__order", "self.__order * X_c", "X_c * self.__order", "self.__order << X_c"], defs=D4)
+            good = bm is not None and ("X_c" not in bm or (isinstance(bm["X_c"], ast.Constant) and isinstance(bm["X_c"].value, int) and bm["X_c"].value >= 1))
+            g = parents.get(id(n))
+            guarded = False
+            while g is not None:
+                if isinstance(g, ast.If) and pat.match("self.__order", g.test, defs=D4) is not None:
+                    guarded = True
+                g = parents.get(id(g))
+            ok &= good and guarded
         chk.ob("R07.4", "%s: %d scalar reduction(s), each modulo a multiple of self.__order under `if self.__order`" % (q, cnt), ok and cnt >= 1, loc="ellipticcurve:PointJacobi." + q, key="C07|R07.4|%s" % q,
                detail="%s reduces a scalar by something other than the declared order, or without checking that an order is declared" % q)
 
